@@ -232,7 +232,7 @@ def run(ctx):
     # periodic lattices with coordination > 3 whose corners wrap round the cell: duals, off-centre square and triangular tilings
     high = []
     one = np.array([[0, 0]])
-    for off in ((0.9, 0.9), (0.05, 0.5), (0.5, 0.97)):
+    for off in ((0.9, 0.9), (0.05, 0.5), (0.5, 0.97), (0.0, 0.0), (0.0, 0.5), (0.5, 0.0)):   # the last three: a row of vertices exactly on a cell wall, bonds running along it
         high.append((f"square4x4@{off}", eg.tile_unit_cell(np.array([off]), np.array([[0, 0], [0, 0]]), np.array([[1, 0], [0, 1]]), [4, 4])))
         high.append((f"triangular4x3@{off}", eg.tile_unit_cell(np.array([off]), np.array([[0, 0], [0, 0], [0, 0]]), np.array([[1, 0], [0, 1], [1, 1]]), [4, 3])))
     for N in ([16, 24] if quick else [14, 16, 20, 24, 30, 40]):
@@ -283,6 +283,16 @@ def run(ctx):
                 if canon_l(gu.vertices_to_polygon(l, arg)) != ref:
                     ctx.impl_violation(f"{name}: truncating vertices {sel} given as a {lab} differs from truncating the same indices as an int64 array", dict(case=name, op="truncate", lattice=zoo.lat_to_json(l), chosen=sel, form=lab))
                 ctx.case((name, "truncate-form-many", lab), nontrivial=True)
+            # selections that name a vertex more than once (edge end points, corners of neighbouring plaquettes, draws with replacement) select it once
+            for lab, arg in (("list with repeats", list(sel) + list(sel[:2]) + [sel[0]]), ("end points of the first three edges", np.asarray(l.edges.indices[:3]).ravel()),
+                             ("corners of two neighbouring plaquettes", np.concatenate([l.plaquettes[0].vertices, l.plaquettes[int(l.plaquettes[0].adjacent_plaquettes[0])].vertices])),
+                             ("draws with replacement", rng.integers(0, l.n_vertices, size=2 * l.n_vertices))):
+                uniq = np.unique(np.asarray(arg, dtype=int))
+                if canon_l(gu.vertices_to_polygon(l, arg)) != canon_l(gu.vertices_to_polygon(l, uniq)):
+                    ctx.impl_violation(f"{name}: truncating the vertices {[int(x) for x in arg][:12]}.. ({lab}) differs from truncating each named vertex once",
+                                       dict(case=name, op="truncate", lattice=zoo.lat_to_json(l), chosen=[int(x) for x in arg], form=lab))
+                check_truncation(ctx, rng, name + f"[{lab}]", l, [int(x) for x in arg], reqs, meta)
+                ctx.case((name, "truncate-repeats", lab), nontrivial=True)
         except Exception as ex:
             ctx.impl_violation(f"{name}: vertices_to_polygon raised {type(ex).__name__}: {ex} for vertices {sel} in one of the accepted forms", dict(case=name, op="truncate", lattice=zoo.lat_to_json(l), chosen=sel))
         if canon_l(gu.vertices_to_polygon(l)) != canon_l(gu.vertices_to_polygon(l, np.arange(l.n_vertices))) or canon_l(gu.vertices_to_polygon(l, None)) != canon_l(gu.vertices_to_polygon(l, np.arange(l.n_vertices))):
@@ -307,6 +317,32 @@ def run(ctx):
         except Exception as ex:
             ctx.impl_violation(f"{name}: vertices_to_polygon raised {type(ex).__name__}: {ex}", dict(case=name, op="truncate", lattice=zoo.lat_to_json(lb), dtype=np.dtype(dt).name))
         ctx.case((name, "narrow dtype"), nontrivial=True)
+    # ---- two lattices with the same edge tables and slightly different vertex positions (a relaxation step, a jittered copy), one right after the other:
+    #      the dual of each has its vertices at that lattice's own plaquette centres
+    for name, l0 in [("vor16", zoo.voronoi(rng, 16)), ("vor30", zoo.voronoi(rng, 30)), ("honey4", eg.honeycomb_lattice(4))]:
+        P0, E0, C0 = zoo.raw(l0)
+        for amp in (3e-4, 1e-3):
+            Pj = P0 + rng.uniform(-amp, amp, size=P0.shape) / np.sqrt(len(P0))
+            if Pj.min() < 0 or Pj.max() >= 1:
+                Pj = np.clip(Pj, 0, 1 - 1e-12)
+            try:
+                la_, lb_ = Lattice(P0.copy(), E0.copy(), C0.copy()), Lattice(Pj, E0.copy(), C0.copy())
+                if min_gap(lb_) < GAP_MIN or lb_.n_plaquettes != la_.n_plaquettes:
+                    continue
+                gu.make_dual(la_); gu.make_dual(la_, True)
+                check_dual(ctx, f"{name}-jittered({amp})-after-the-original", lb_, reqs, meta)
+                for flag in (False, True):
+                    if canon_l(gu.make_dual(lb_, flag)) != canon_l(gu.make_dual(Lattice(Pj.copy(), E0.copy(), C0.copy()), flag)):
+                        ctx.impl_violation(f"{name}: the dual of a jittered copy (use_point_averages={flag}) computed after the dual of the original differs from the dual of the same jittered lattice built afresh",
+                                           dict(case=name, op="dual", lattice=zoo.lat_to_json(lb_), jitter=amp))
+                ctx.case((name, "dual-jittered-twin", amp), nontrivial=True)
+            except LatticeException:
+                pass
+            except Exception as ex:
+                if "small" in str(ex):
+                    ctx.count("dual_precondition_excluded_too_small")
+                else:
+                    ctx.impl_violation(f"{name}: make_dual on a jittered copy raised {type(ex).__name__}: {ex}", dict(case=name, op="dual", lattice=zoo.lat_to_json(l0)))
     # ---- make_dual with both centre rules on one and the same lattice object, in both orders: each call is what it is on a fresh lattice
     for name, l0 in [("vor16", zoo.voronoi(rng, 16)), ("vor20-xy", cut_boundaries(zoo.voronoi(rng, 20)))]:
         raw = zoo.raw(l0)
